@@ -101,8 +101,8 @@ Definition strict_sub (okb : string -> list sel -> bool) (strict : string -> lis
   | _ => strict base sub
   end.
 
-Fixpoint sels_strict (fuel : nat) (C : cfg) (S : schema) (frs : list fragdef) (nested : bool) (tn : string)
-         (sels : list sel) : bool :=
+Fixpoint sels_strict (fuel : nat) (C : cfg) (S : schema) (frs : list fragdef) (mx : list string)
+         (nested : bool) (tn : string) (sels : list sel) : bool :=
   match fuel with
   | O => false
   | Datatypes.S g =>
@@ -111,8 +111,8 @@ Fixpoint sels_strict (fuel : nat) (C : cfg) (S : schema) (frs : list fragdef) (n
           forallb (fun f =>
             field_strict C S nested tn f &&
             match fn_sub f, schema_field_type S tn (fn_name f) with
-            | Some sub, Ok t => strict_sub (fun b sb => sels_ok g true C S frs true b b sb)
-                                           (sels_strict g C S frs true) S (base_name t) sub
+            | Some sub, Ok t => strict_sub (fun b sb => sels_ok g true C S frs mx true b b sb)
+                                           (sels_strict g C S frs mx true) S (base_name t) sub
             | _, _ => true
             end) fns
       | None => false
@@ -216,6 +216,9 @@ Section LevelS.
   (* ok2: the same guard as computed inside the strictness guard (for the interface's own name) *)
   Variable ok2 : bool -> string -> string -> list sel -> bool.
   Variable strict : string -> list sel -> bool.
+  Variable mx : list string.
+  Variable harm : list string -> Prop.
+  Hypothesis harm_mx : forall eb, forallb (fun b => mem b mx) eb = true -> harm eb.
   Hypothesis W_opt : forall a j, W (AOpt a) j = is_null j || W a j.
   Hypothesis W_list : forall a j, W (AList a) j = match j with JArr l => forallb (W a) l | _ => false end.
   Hypothesis W_scalar : forall n j, j <> JNull -> W (fst (scalar_ann C n false)) j = true ->
@@ -230,11 +233,11 @@ Section LevelS.
   Hypothesis W_uni : forall alts j, W (AUnion alts) j = true ->
       exists kv s c, j = JObj kv /\ jlookup "__typename" kv = Some (JStr s) /\
                      union_pick mro alts s = Some (AClass c) /\ W (AClass c) j = true.
-  Hypothesis mro_det : forall c fs, lookup_class cs (c_name c) = Some c -> c_name c <> "BaseModel" ->
-      c_bases c = ["BaseModel"] -> mro (c_name c) = Some fs -> fs = c_fields c.
+  Hypothesis mro_det : forall c eb fs, lookup_class cs (c_name c) = Some c -> c_name c <> "BaseModel" ->
+      c_bases c = "BaseModel" :: eb -> harm eb -> mro (c_name c) = Some fs -> fs = c_fields c.
   Hypothesis fuel_pos : exists f2, fuel' = Datatypes.S f2.
-  Hypothesis W_class : forall pub cn2 tn2 sels2 at2 out2 pub2 kv,
-      parse_type_def fuel' C S frs pub cn2 tn2 sels2 at2 [] (Some [tn2]) = Ok (out2, pub2, false) ->
+  Hypothesis W_class : forall pub cn2 tn2 sels2 at2 eb2 out2 pub2 kv, harm eb2 ->
+      parse_type_def fuel' C S frs pub cn2 tn2 sels2 at2 eb2 (Some [tn2]) = Ok (out2, pub2, false) ->
       (ok at2 tn2 tn2 sels2 = true \/ ok2 at2 tn2 tn2 sels2 = true) -> strict tn2 sels2 = true ->
       (at2 = true -> has_typename sels2 = true) ->
       table_ok cs out2 -> W (AClass cn2) (JObj kv) = true ->
@@ -252,7 +255,7 @@ Section LevelS.
     end.
 
   Lemma field_value_rev cn tn tv nested at_ f pf ctx pub0 exc pub1 v :
-    field_ok ok g true S at_ tn tn f = true ->
+    field_ok ok g true S mx at_ tn tn f = true ->
     field_strict C S nested tn f = true -> sub_strict tn f = true ->
     tv = (if nested then Some [tn] else None) ->
     field_pf C S frs fuel' cn tn tv at_ f = Ok (pf, ctx) ->
@@ -263,7 +266,7 @@ Section LevelS.
     destruct (field_pf_inv _ _ _ _ _ _ _ _ _ _ _ Hpf) as [t [a0 [il [Ht [Ha Hpf']]]]]. subst pf.
     cbn [p_ann mk_pfield] in Hw.
     unfold field_ok in Hok. apply andb_true_iff in Hok as [Hmix Hok].
-    destruct (fn_mixins f) eqn:Emix; [| discriminate]. clear Hmix.
+    pose proof (harm_mx _ Hmix) as Hharm. clear Hmix.
     unfold value_lconf. unfold field_strict in Hst.
     destruct (String.eqb (fn_name f) "__typename") eqn:Etn.
     - apply andb_true_iff in Hst as [Hnest Hnc]. apply negb_true_iff in Hnc.
@@ -335,12 +338,11 @@ Section LevelS.
         inversion Hrun as [| rc rcs pb qc qp qs cls pb' sk Hq Hrest]; subst.
         inversion Hrest; subst. simpl in Hq.
         match goal with H : _ || _ = false |- _ => apply orb_false_elim in H as [Hqs _] end. subst qs.
-        rewrite Emix in Hq.
         rewrite (typename_values_object S _ (base_name t)) in Hq;
           [| unfold is_object; rewrite El; reflexivity | reflexivity].
         unfold strict_sub in Hss. rewrite El in Hss.
         assert (He : ev (fun fc => obj_lconf fc S frs (base_name t) sub kv')).
-        { eapply (W_class _ _ _ _ false); eauto; [discriminate|].
+        { eapply (W_class _ _ _ _ false (fn_mixins f)); eauto; [discriminate|].
           eapply table_ok_incl; [exact Htab|]. rewrite app_nil_r. apply incl_refl. }
         apply ev_shift in He. destruct He as [a Ha]. exists a. intros [|k] Hk; [specialize (Ha 0 Hk); discriminate|].
         specialize (Ha _ Hk). cbn [conf_val_gen]. rewrite El.
@@ -375,7 +377,7 @@ Section LevelS.
                                              (sub_scopes [node_of_fnode false f]) (JObj kv'))).
         { intros kv' cn0 t0 Hrc Hab Htv0 Ht0 Hwc.
           destruct (subs_run_each _ _ _ _ _ _ _ _ _ _ Hrun eq_refl _ Hrc) as [pa [qc [qp [Hq Hi]]]].
-          simpl in Hq. rewrite Hab, Emix, Htv0 in Hq.
+          simpl in Hq. rewrite Hab, Htv0 in Hq.
           assert (Hokt : ok true t0 t0 sub = true \/ ok2 true t0 t0 sub = true).
           { destruct Ht0 as [E | Hin]; [subst t0; right; exact Hokb | left].
             rewrite forallb_forall in Hall, Hallv. destruct (andb_prop _ _ (Hall t0 Hin)) as [_ Hv].
@@ -383,7 +385,7 @@ Section LevelS.
           assert (Hstt : strict t0 sub = true).
           { destruct Ht0 as [E | Hin]; [subst t0; exact Hsb|]. rewrite forallb_forall in Hsp. apply Hsp, Hin. }
           assert (He : ev (fun fc => obj_lconf fc S frs t0 sub kv')).
-          { eapply (W_class pa cn0 t0 sub true); eauto. eapply table_ok_incl; eauto. }
+          { eapply (W_class pa cn0 t0 sub true (fn_mixins f)); eauto. eapply table_ok_incl; eauto. }
           apply ev_shift in He. destruct He as [a Ha]. exists a. intros [|k] Hk; [specialize (Ha 0 Hk); discriminate|].
           specialize (Ha _ Hk). cbn [conf_val_gen]. rewrite El. apply existsb_exists. exists t0.
           split; [apply Hcand, Ht0|].
@@ -426,7 +428,7 @@ Section LevelS.
         apply in_map_iff in Hin. destruct Hin as [t0 [Ec0 Ht0]]. inversion Ec0; subst c0. clear Ec0.
         assert (Hrc : In (rel_of sc t0) (x_related (snd r))) by (rewrite Hrel; apply in_map, Ht0).
         destruct (subs_run_each _ _ _ _ _ _ _ _ _ _ Hrun eq_refl _ Hrc) as [pa [qc [qp [Hq Hi]]]].
-        simpl in Hq. rewrite Hab, Emix in Hq.
+        simpl in Hq. rewrite Hab in Hq.
         assert (Htv0 : typename_values S (x_related (snd r)) t0 = [t0]).
         { unfold typename_values. rewrite Hrel, map_map. simpl. rewrite map_id.
           assert (Hnone : find (fun n => match lookup_type S n with Some d => is_abstract d | None => false end) ms = None).
@@ -436,12 +438,12 @@ Section LevelS.
           rewrite Hnone. reflexivity. }
         rewrite Htv0 in Hq.
         pose proof Hq as Hq'. rewrite Ef in Hq'.
-        destruct (variant_class_facts _ _ _ _ _ _ _ _ _ _ _ _ Hq' Hns) as [fields0 [pfl0 [extra0 [_ [_ [Eqc Hlit]]]]]].
-        assert (Hcin : In {| c_name := sc +++ t0; c_bases := ["BaseModel"]; c_fields := pfl0 |} exc)
+        destruct (variant_class_facts _ _ _ _ _ _ _ _ _ _ _ _ _ Hq' Hns) as [fields0 [pfl0 [extra0 [_ [_ [Eqc Hlit]]]]]].
+        assert (Hcin : In {| c_name := sc +++ t0; c_bases := "BaseModel" :: fn_mixins f; c_fields := pfl0 |} exc)
           by (apply Hi; rewrite Eqc; left; reflexivity).
         destruct (Htab _ Hcin) as [Hlk Hnbm].
         destruct (mro (sc +++ t0)) as [fs|] eqn:Emro; [| discriminate Hpred].
-        pose proof (mro_det _ fs Hlk Hnbm eq_refl Emro) as Efs. simpl in Efs. subst fs.
+        pose proof (mro_det _ _ fs Hlk Hnbm eq_refl Hharm Emro) as Efs. simpl in Efs. subst fs.
         unfold typename_literal in Hpred.
         destruct (find (fun f0 => String.eqb (p_name f0) "typename__") (last_wins pfl0)) as [f'|] eqn:Ef';
           [| discriminate Hpred].
@@ -457,7 +459,7 @@ Section LevelS.
         rewrite Hnames in Hokt. unfold variant in Hokt. rewrite (proj2 (mem_In t0 ms) Ht0) in Hokt.
         unfold strict_sub in Hss. rewrite El in Hss. rewrite forallb_forall in Hss. specialize (Hss t0 Ht0).
         assert (He : ev (fun fc => obj_lconf fc S frs t0 sub kv')).
-        { eapply (W_class pa (sc +++ t0) t0 sub true); eauto.
+        { eapply (W_class pa (sc +++ t0) t0 sub true (fn_mixins f)); eauto.
           eapply table_ok_incl; eauto. }
         apply ev_shift in He. destruct He as [a Ha]. exists a. intros [|k] Hk; [specialize (Ha 0 Hk); discriminate|].
         specialize (Ha _ Hk). cbn [conf_val_gen]. rewrite El. apply existsb_exists. exists t0.
@@ -473,7 +475,7 @@ Section LevelS.
 
   Lemma level_facts_rev cn tn tv nested at_ fns pub pfl extra pub' :
     fields_run (parse_type_def fuel' C S frs) C S frs fuel' cn tn tv at_ fns pub pfl extra pub' false ->
-    forallb (field_ok ok g true S at_ tn tn) fns = true ->
+    forallb (field_ok ok g true S mx at_ tn tn) fns = true ->
     forallb (fun f => field_strict C S nested tn f && sub_strict tn f) fns = true ->
     tv = (if nested then Some [tn] else None) -> table_ok cs extra ->
     Forall2 (field_facts_rev tn) fns pfl.
@@ -551,20 +553,20 @@ Qed.
 Lemma class_accepts_none rec j : class_accepts rec None j = false.
 Proof. destruct j; reflexivity. Qed.
 
-Lemma mro_one cs n c :
-  lookup_class cs n = Some c -> c_bases c = ["BaseModel"] -> n <> "BaseModel" -> mro_fields 1 cs n = None.
+Lemma mro_one cs n c eb :
+  lookup_class cs n = Some c -> c_bases c = "BaseModel" :: eb -> n <> "BaseModel" -> mro_fields 1 cs n = None.
 Proof.
-  intros Hl Hb Hn. cbn [mro_fields]. rewrite (eqb_neq_false _ _ Hn), Hl, Hb. reflexivity.
+  intros Hl Hb Hn. cbn [mro_fields]. rewrite (eqb_neq_false _ _ Hn), Hl, Hb. cbn [fold_left].
+  generalize eb. induction eb0 as [|b l IH]; [reflexivity | exact IH].
 Qed.
 
-Lemma mro_some_simple cs n c j fs :
-  lookup_class cs n = Some c -> n <> "BaseModel" -> c_bases c = ["BaseModel"] ->
+Lemma mro_some_harmless cs n c eb j fs :
+  lookup_class cs n = Some c -> n <> "BaseModel" -> c_bases c = "BaseModel" :: eb -> harmless cs eb ->
   mro_fields j cs n = Some fs -> fs = c_fields c.
 Proof.
-  intros Hl Hn Hb H. destruct j as [|j]; [discriminate H|]. cbn [mro_fields] in H.
-  rewrite (eqb_neq_false _ _ Hn), Hl, Hb in H. cbn [fold_left] in H.
-  destruct j as [|j]; [discriminate H|]. simpl in H. unfold mro_merge in H. simpl in H.
-  rewrite app_nil_r in H. inversion H. reflexivity.
+  intros Hl Hn Hb Hh H. destruct j as [|[|j]]; [discriminate H | |].
+  - rewrite (mro_one cs n c eb Hl Hb Hn) in H. discriminate H.
+  - rewrite (mro_harmless cs n c j eb Hl Hb Hn Hh) in H. inversion H. reflexivity.
 Qed.
 
 Lemma acc_cov_union cs enums n1 alts j :
@@ -583,25 +585,26 @@ Proof.
   rewrite Ha, Hc. reflexivity.
 Qed.
 
-Theorem obj_strict C S frs : forall fuel g gs nested pub cn tn sels at_ tv out pub' cs kv n,
-  parse_type_def fuel C S frs pub cn tn sels at_ [] tv = Ok (out, pub', false) ->
-  sels_ok g true C S frs at_ tn tn sels = true -> sels_strict gs C S frs nested tn sels = true ->
+Theorem obj_strict C S frs mx : forall fuel g gs nested pub cn tn sels at_ eb tv out pub' cs kv n,
+  parse_type_def fuel C S frs pub cn tn sels at_ eb tv = Ok (out, pub', false) ->
+  sels_ok g true C S frs mx at_ tn tn sels = true -> sels_strict gs C S frs mx nested tn sels = true ->
   (at_ = true -> has_typename sels = true) ->
   tv = (if nested then Some [tn] else None) -> table_ok cs out ->
+  mx_ok cs mx = true -> harmless cs eb ->
   accepts n cs (schema_enums S) (AClass cn) (JObj kv) = true ->
   covers n cs (AClass cn) (JObj kv) = true ->
   ev (fun fc => obj_lconf fc S frs tn sels kv).
 Proof.
-  induction fuel as [|fuel IH]; intros g gs nested pub cn tn sels at_ tv out pub' cs kv n Hp Hok Hst Hat Htv Htab Hacc Hcov;
+  induction fuel as [|fuel IH]; intros g gs nested pub cn tn sels at_ eb tv out pub' cs kv n Hp Hok Hst Hat Htv Htab Hmx Heb Hacc Hcov;
     [discriminate Hp|].
-  destruct (level_inv _ _ _ _ _ _ _ _ _ _ _ _ _ _ _ Hp Hok Hat) as [f2 [g' [fns [pfl [extra [Ef [Eg [Hfl [Hrun Hout]]]]]]]]].
-  destruct (sels_ok_inv _ _ _ _ _ _ _ _ _ Hok) as [g'' [fns' [Eg' [Hfl' [Hkeys [Hnames Hfields]]]]]].
+  destruct (level_inv _ _ _ _ _ _ _ _ _ _ _ _ _ _ _ _ _ Hp Hok Hat) as [f2 [g' [fns [pfl [extra [Ef [Eg [Hfl [Hrun Hout]]]]]]]]].
+  destruct (sels_ok_inv _ _ _ _ _ _ _ _ _ _ Hok) as [g'' [fns' [Eg' [Hfl' [Hkeys [Hnames Hfields]]]]]].
   rewrite Eg in Eg'. inversion Eg'; subst g''. clear Eg'. specialize (Hnames eq_refl).
   rewrite Hfl in Hfl'. inversion Hfl'; subst fns'. clear Hfl'.
   destruct gs as [|gs']; [discriminate Hst|]. cbn [sels_strict] in Hst.
   destruct (flatten gs' S frs tn tn sels) as [fns2|] eqn:Hfl2; [| discriminate Hst].
   rewrite (flatten_det _ _ _ _ _ _ _ _ _ Hfl2 Hfl) in Hst. clear Hfl2 fns2.
-  assert (Hc0 : In {| c_name := cn; c_bases := ["BaseModel"]; c_fields := pfl |} out)
+  assert (Hc0 : In {| c_name := cn; c_bases := "BaseModel" :: eb; c_fields := pfl |} out)
     by (rewrite Hout; left; reflexivity).
   destruct (Htab _ Hc0) as [Hl Hnb]. simpl in Hl, Hnb.
   destruct n as [|n']; [discriminate Hacc|].
@@ -609,15 +612,17 @@ Proof.
   change (class_covers (covers n' cs) (mro_fields n' cs cn) (JObj kv) = true) in Hcov.
   destruct n' as [|[|n2]].
   - simpl in Hacc. discriminate Hacc.
-  - rewrite (mro_one cs cn _ Hl eq_refl Hnb), class_accepts_none in Hacc. discriminate Hacc.
-  - rewrite (mro_simple cs cn _ n2 Hl eq_refl Hnb) in Hacc, Hcov. simpl c_fields in Hacc, Hcov.
+  - rewrite (mro_one cs cn _ eb Hl eq_refl Hnb), class_accepts_none in Hacc. discriminate Hacc.
+  - rewrite (mro_harmless cs cn _ n2 eb Hl eq_refl Hnb Heb) in Hacc, Hcov. simpl c_fields in Hacc, Hcov.
     set (n1 := Datatypes.S n2) in *.
     set (Wa := accepts (Datatypes.S n1) cs (schema_enums S)) in *.
     set (Wc := covers (Datatypes.S n1) cs) in *.
     assert (HF : Forall2 (field_facts_rev C S frs (fun a j => Wa a j && Wc a j) tn) fns pfl).
     { eapply level_facts_rev with (W := fun a j => Wa a j && Wc a j) (mro := mro_fields n1 cs)
-                                  (ok := sels_ok g' true C S frs) (ok2 := sels_ok gs' true C S frs) (strict := sels_strict gs' C S frs true)
+                                  (ok := sels_ok g' true C S frs mx) (ok2 := sels_ok gs' true C S frs mx)
+                                  (strict := sels_strict gs' C S frs mx true) (mx := mx) (harm := harmless cs)
                                   (fuel' := fuel) (g := g') (cs := cs); try eassumption.
+      - intros eb0. apply mx_ok_harmless, Hmx.
       - intros a j. unfold Wa, Wc. simpl. destruct (is_null j); reflexivity.
       - intros a j. unfold Wa, Wc. simpl. destruct j; try reflexivity. apply forallb_andb.
       - intros m j Hnn H. apply andb_true_iff in H as [H _]. unfold Wa in H. cbn [accepts] in H.
@@ -631,9 +636,9 @@ Proof.
       - intros c j H. apply andb_true_iff in H as [H _]. unfold Wa in H. simpl in H.
         destruct j; try discriminate H. eauto.
       - intros alts j H. unfold Wa, Wc in *. apply acc_cov_union, H.
-      - intros c fs Hlc Hnc Hbc Hm. eapply mro_some_simple; eauto.
+      - intros c eb0 fs Hlc Hnc Hbc Hh Hm. eapply mro_some_harmless; eauto.
       - eauto.
-      - intros pb cn2 tn2 sels2 at2 out2 pub2 kv2 P1 P2 P3 P3' P4 P5. apply andb_true_iff in P5 as [P5 P6].
+      - intros pb cn2 tn2 sels2 at2 eb2 out2 pub2 kv2 P0 P1 P2 P3 P3' P4 P5. apply andb_true_iff in P5 as [P5 P6].
         destruct P2 as [P2 | P2]; eapply IH; eauto.
       - eapply table_ok_incl; [exact Htab|]. rewrite Hout. apply incl_tl, incl_refl. }
     destruct (level_strict C S frs tn Wa Wc kv _ _ HF Hkeys Hnames Hacc Hcov) as [Hkv Hspec].
@@ -648,43 +653,44 @@ Qed.
 
 (* ------------------------------------------------------------------------------------------- *)
 (* Operation level                                                                              *)
-Theorem op_strict C S frs fuel kind name sels root own pub' cls g gs j n :
+Theorem op_strict C S frs fuel kind name mixins sels root own pub' cls g gs mx j n :
   root_type_name S kind = Ok root ->
-  op_parse fuel C S frs kind name [] sels = Ok (own, pub', false) ->
-  all_classes fuel C S frs (DOp kind name [] sels) = Ok cls ->
-  op_ok g true C S frs root sels = true -> sels_strict gs C S frs false root sels = true ->
-  no_basemodel own = true ->
+  op_parse fuel C S frs kind name mixins sels = Ok (own, pub', false) ->
+  all_classes fuel C S frs (DOp kind name mixins sels) = Ok cls ->
+  op_ok g true C S frs mx mixins root sels = true -> sels_strict gs C S frs mx false root sels = true ->
+  mx_ok cls mx = true -> no_basemodel own = true ->
   accepts n cls (schema_enums S) (AClass (pascal_s name)) j = true ->
   covers n cls (AClass (pascal_s name)) j = true ->
   ev (fun fc => conf_op_gen lax_leaf false true fc S frs root sels j).
 Proof.
-  intros Hroot Hop Hall Hok Hst Hnb Hacc Hcov.
-  pose proof (op_table _ _ _ _ _ _ _ _ _ _ Hop Hall Hnb) as Htab.
-  unfold op_ok in Hok. apply andb_true_iff in Hok as [Hobj Hsels].
+  intros Hroot Hop Hall Hok Hst Hmx Hnb Hacc Hcov.
+  pose proof (op_table _ _ _ _ _ _ _ _ _ _ _ Hop Hall Hnb) as Htab.
+  unfold op_ok in Hok. apply andb_true_iff in Hok as [Hobj Hsels]. apply andb_true_iff in Hobj as [Hobj Hmix].
+  pose proof (mx_ok_harmless _ _ _ Hmx Hmix) as Hharm.
   assert (Hj : exists kv, j = JObj kv).
   { destruct n as [|n']; [discriminate Hacc|]. simpl in Hacc. destruct j; try discriminate Hacc. eauto. }
   destruct Hj as [kv Ej]. subst j.
   unfold op_parse in Hop. rewrite Hroot in Hop. simpl in Hop.
   assert (He : ev (fun fc => obj_lconf fc S frs root sels kv))
-    by (eapply (obj_strict C S frs fuel g gs false [] (pascal_s name) root sels false); eauto; discriminate).
+    by (eapply (obj_strict C S frs mx fuel g gs false [] (pascal_s name) root sels false mixins); eauto; discriminate).
   destruct He as [a Ha]. exists (Datatypes.S (Datatypes.S a)). intros [|[|k]] Hk; try lia.
   unfold conf_op_gen. cbn [conf_val_gen]. unfold is_object in Hobj.
   destruct (lookup_type S root) as [[]|]; try discriminate Hobj. apply Ha. lia.
 Qed.
 
-Corollary op_strict_rejects C S frs fuel kind name sels root own pub' cls g gs j n :
+Corollary op_strict_rejects C S frs fuel kind name mixins sels root own pub' cls g gs mx j n :
   root_type_name S kind = Ok root ->
-  op_parse fuel C S frs kind name [] sels = Ok (own, pub', false) ->
-  all_classes fuel C S frs (DOp kind name [] sels) = Ok cls ->
-  op_ok g true C S frs root sels = true -> sels_strict gs C S frs false root sels = true ->
-  no_basemodel own = true ->
+  op_parse fuel C S frs kind name mixins sels = Ok (own, pub', false) ->
+  all_classes fuel C S frs (DOp kind name mixins sels) = Ok cls ->
+  op_ok g true C S frs mx mixins root sels = true -> sels_strict gs C S frs mx false root sels = true ->
+  mx_ok cls mx = true -> no_basemodel own = true ->
   (forall fc, conf_op_gen lax_leaf false true fc S frs root sels j = false) ->
   covers n cls (AClass (pascal_s name)) j = true ->
   accepts n cls (schema_enums S) (AClass (pascal_s name)) j = false.
 Proof.
-  intros Hroot Hop Hall Hok Hst Hnb Hnc Hcov.
+  intros Hroot Hop Hall Hok Hst Hmx Hnb Hnc Hcov.
   destruct (accepts n cls (schema_enums S) (AClass (pascal_s name)) j) eqn:E; [| reflexivity].
-  destruct (op_strict _ _ _ _ _ _ _ _ _ _ _ _ _ _ _ Hroot Hop Hall Hok Hst Hnb E Hcov) as [a Ha].
+  destruct (op_strict _ _ _ _ _ _ _ _ _ _ _ _ _ _ _ _ _ Hroot Hop Hall Hok Hst Hmx Hnb E Hcov) as [a Ha].
   specialize (Ha a (le_n a)). rewrite Hnc in Ha. discriminate Ha.
 Qed.
 
